@@ -247,11 +247,15 @@ static void record(uint64_t seed, const std::string& tier, const std::string& tr
 	int n3 = quick ? 1500 : 20000;
 	for(int i = 0; i < n3; i++)
 	{
-		double a = g.coin(0.25) ? g.logu(100.0, 1.0e4) : (g.coin(0.3) ? g.logu(1e-2, 1.0) : g.uni(1.0, 100.0));
+		double a = g.coin(0.25) ? g.logu(100.0, 1.0e4) : (g.coin(0.3) ? g.logu(1e-2, 1.0) : (g.coin(0.5) ? g.logu(1.0, 100.0) : g.uni(1.0, 100.0)));
 		if(g.coin(0.1))
 			a = std::floor(a) + 1.0;
+		if(i % 5 == 0)
+			a = g.uni(1.0, 6.0);	  // the starting guesses of the inverse change form at a = 1; small shapes with far tails
 		double p;
 		int sel = (int)g.range(0, 3);
+		if(i % 5 == 0)
+			sel = (int)g.range(0, 1);
 		if(sel == 0)
 			p = g.logu(1e-12, 0.5);
 		else if(sel == 1)
